@@ -120,11 +120,11 @@ package resource_division
 //@   ensures [weightsLeSum] forall k in result0 :: result0[k] <= result1
 //@   ensures [keysUnsatisfied] forall k in result0 :: k in queues && !satisfied(queues[k], resourceName)
 //@   ensures [unsatisfiedHaveKey] result1 != 0.0 ==> forall k in queues :: !satisfied(queues[k], resourceName) ==> k in result0
-//@   ensures [formula] result1 != 0.0 ==> exists T real :: T > 0.0 && (forall k in queues :: !satisfied(queues[k], resourceName) ==> weight(queues[k], resourceName) <= T) && (forall k in result0 :: result0[k] == shareW(queues[k], resourceName, T, kValue))
+//@   lemma [formula] result1 != 0.0 ==> exists T real :: T > 0.0 && (forall k in queues :: !satisfied(queues[k], resourceName) ==> weight(queues[k], resourceName) <= T) && (forall k in result0 :: result0[k] == shareW(queues[k], resourceName, T, kValue))
 //@   ensures [sumOfWeights] totalUnsatW(queues, resourceName) != 0.0 ==> result1 == swSum(queues, result0)
-//@   ensures [sumClosedForm] totalUnsatW(queues, resourceName) != 0.0 ==> result1 == effWSum(queues, queues, resourceName, totalUnsatW(queues, resourceName), kValue)
+//@   lemma [sumClosedForm] totalUnsatW(queues, resourceName) != 0.0 ==> result1 == effWSum(queues, queues, resourceName, totalUnsatW(queues, resourceName), kValue)
 //@   ensures [nothingToShare] totalUnsatW(queues, resourceName) == 0.0 ==> result1 == 0.0 && forall k common_info.QueueID :: !(k in result0)
-//@   ensures [formulaClosed] result1 != 0.0 ==> forall k in result0 :: result0[k] == shareW(queues[k], resourceName, totalUnsatW(queues, resourceName), kValue)
+//@   lemma [formulaClosed] result1 != 0.0 ==> forall k in result0 :: result0[k] == shareW(queues[k], resourceName, totalUnsatW(queues, resourceName), kValue)
 //@   ensures [weightMonotoneCPU] resourceName == "CPU" && kValue >= 0.0 ==> forall a in result0 :: forall b in result0 :: queues[a].CPU.OverQuotaWeight <= queues[b].CPU.OverQuotaWeight && queues[a].CPU.Usage >= queues[b].CPU.Usage ==> result0[a] <= result0[b]
 //@   ensures [weightMonotoneMemory] resourceName == "Memory" && kValue >= 0.0 ==> forall a in result0 :: forall b in result0 :: queues[a].Memory.OverQuotaWeight <= queues[b].Memory.OverQuotaWeight && queues[a].Memory.Usage >= queues[b].Memory.Usage ==> result0[a] <= result0[b]
 //@   ensures [weightMonotoneGPU] resourceName == "GPU" && kValue >= 0.0 ==> forall a in result0 :: forall b in result0 :: queues[a].GPU.OverQuotaWeight <= queues[b].GPU.OverQuotaWeight && queues[a].GPU.Usage >= queues[b].GPU.Usage ==> result0[a] <= result0[b]
@@ -273,7 +273,7 @@ package resource_division
 // NOT proved here (needs a sum over the visited queues, which the spec language cannot express):
 // remaining >= 0 ("the surplus handed out never exceeds what is left").
 // (helper "c09b") round share of queue k: the code's `amountToGiveInCurrentRound * (shareWeightsPerQueue[k] / shareWeightsSum)`, and its sum
-//@ define roundShare(m map[common_info.QueueID]float64, k common_info.QueueID, A real, S real) real = A * (m[k] / S)
+//@ define roundShare(m map[common_info.QueueID]float64, k common_info.QueueID, A real, S real) real = max(A * (m[k] / S), 0.0)
 //@ define roundShareSum(V ref, m map[common_info.QueueID]float64, A real, S real) real = sum k in V :: roundShare(m, k, A, S)
 //@ func divideUpToFairShare
 //@   props C09
@@ -289,9 +289,16 @@ package resource_division
 //@     invariant rrOK(remainingRequested, queues, resourceName)
 //@     invariant rrDistinct(remainingRequested)
 //@     invariant oldTablesKept()
+//@     invariant totalResourceAmount >= 0.0 ==> cur(totalResourceAmount) >= 0.0
+//@     invariant fairSum(queues, queues, resourceName) + cur(totalResourceAmount) == old(fairSum(queues, queues, resourceName)) + totalResourceAmount
 //@   loop 2
 //@     invariant remainingRequested != nil && fresh(remainingRequested)
 //@     invariant forall k in visited :: k in queues
+//@     invariant shareWeightsSum > 0.0 && shareWeightsSum == swSum(queues, shareWeightsPerQueue) && forall k common_info.QueueID :: shareWeightsPerQueue[k] >= 0.0
+//@     invariant totalResourceAmount >= 0.0 ==> amountToGiveInCurrentRound >= 0.0
+//@     invariant totalResourceAmount >= 0.0 ==> amountToGiveInCurrentRound - cur(totalResourceAmount) <= roundShareSum(visited, shareWeightsPerQueue, amountToGiveInCurrentRound, shareWeightsSum)
+//@     invariant totalResourceAmount >= 0.0 ==> roundShareSum(visited, shareWeightsPerQueue, amountToGiveInCurrentRound, shareWeightsSum) * shareWeightsSum == amountToGiveInCurrentRound * swSum(visited, shareWeightsPerQueue)
+//@     invariant fairSum(queues, queues, resourceName) + cur(totalResourceAmount) == old(fairSum(queues, queues, resourceName)) + totalResourceAmount
 //@     invariant queuesOK(queues)
 //@     invariant cur(totalResourceAmount) <= totalResourceAmount
 //@     invariant forall k in queues :: fair(queues[k], resourceName) >= old(fair(queues[k], resourceName)) && fair(queues[k], resourceName) <= max(old(fair(queues[k], resourceName)), capReq(queues[k], resourceName))
@@ -302,6 +309,8 @@ package resource_division
 //@     invariant oldTablesKept()
 //@   ensures [remainderTableFresh] remainingRequested != nil && fresh(remainingRequested)
 //@   ensures [nothingTakenBack] remainingAmount <= totalResourceAmount
+//@   ensures [neverNegative] totalResourceAmount >= 0.0 ==> remainingAmount >= 0.0
+//@   ensures [conservation] fairSum(queues, queues, resourceName) + remainingAmount == old(fairSum(queues, queues, resourceName)) + totalResourceAmount
 //@   ensures [sharesOnlyGrow] forall k in queues :: fair(queues[k], resourceName) >= old(fair(queues[k], resourceName))
 //@   ensures [neverBeyondCappedRequest] forall k in queues :: fair(queues[k], resourceName) <= max(old(fair(queues[k], resourceName)), capReq(queues[k], resourceName))
 //@   ensures [otherResourcesKept] forall k in queues :: otherResKept(queues[k], resourceName)
@@ -327,6 +336,8 @@ package resource_division
 // the share of q for resource r is as in the pre-state
 //@ define ungained(q *rs.QueueAttributes, r rs.ResourceName) bool = fair(q, r) == old(fair(q, r))
 
+// (helper "c09b") number of records of a remainder table (S = the table, or the ghost `visited` of a loop over it)
+//@ define rrCount(S ref) int = count k in S :: true
 // the priority queue of the remainder phase holds every record of the table exactly once (functional:
 // independent of the map iteration order up to the heap's internal layout)
 //@ func sortByOverQuotaWeight
@@ -340,9 +351,11 @@ package resource_division
 //@     invariant pqFromTable(sortedGroupQueues, remainingRequested)
 //@     invariant forall i int :: 0 <= i && i < len(sortedGroupQueues.queue.items) ==> unbox(sortedGroupQueues.queue.items[i], "*remainingRequestedResource").queue.UID in visited
 //@     invariant pqNoDup(sortedGroupQueues)
+//@     invariant len(sortedGroupQueues.queue.items) == rrCount(visited)
 //@   ensures [unbounded] result != nil && result.maxQueueSize == 0 - 1 && fresh(result.queue.items)
 //@   ensures [onlyTableRecords] pqFromTable(result, remainingRequested)
 //@   ensures [noDuplicates] pqNoDup(result)
+//@   ensures [oneElementPerRecord] len(result.queue.items) == rrCount(remainingRequested)
 //@ end
 
 // C09, remainder phase of one priority level ("the surplus handed out never exceeds what is left",
@@ -363,10 +376,13 @@ package resource_division
 //@     invariant forall i int :: 0 <= i && i < len(sortedQueues.queue.items) ==> inTable(remainingRequested, unbox(sortedQueues.queue.items[i], "*remainingRequestedResource").queue)
 //@     invariant cur(totalResourceAmount) >= 0.0 && cur(totalResourceAmount) <= totalResourceAmount
 //@     invariant rrKeyed(remainingRequested)
+//@     invariant len(sortedQueues.queue.items) <= rrCount(remainingRequested)
+//@     invariant cur(totalResourceAmount) == max(totalResourceAmount - real(rrCount(remainingRequested) - len(sortedQueues.queue.items)), 0.0)
 //@     invariant forall q *rs.QueueAttributes :: q != nil ==> fair(q, resourceName) >= old(fair(q, resourceName)) && otherResKept(q, resourceName)
 //@     invariant forall q *rs.QueueAttributes :: q != nil && !inTable(remainingRequested, q) ==> ungained(q, resourceName) && q.lastFairShare == old(q.lastFairShare)
 //@   ensures [neverNegative] remainingAmount >= 0.0
 //@   ensures [nothingTakenBack] remainingAmount <= totalResourceAmount
+//@   ensures [exactRemainder] remainingAmount == max(totalResourceAmount - real(rrCount(remainingRequested)), 0.0)
 //@   ensures [sharesOnlyGrow] forall q *rs.QueueAttributes :: q != nil ==> fair(q, resourceName) >= old(fair(q, resourceName))
 //@   ensures [otherResourcesKept] forall q *rs.QueueAttributes :: q != nil ==> otherResKept(q, resourceName)
 //@   ensures [onlyTableQueues] forall q *rs.QueueAttributes :: q != nil && !inTable(remainingRequested, q) ==> ungained(q, resourceName) && q.lastFairShare == old(q.lastFairShare)
@@ -395,6 +411,7 @@ package resource_division
 //@     invariant remainingRequested != nil && fresh(remainingRequested)
 //@     invariant queuesOK(queues)
 //@     invariant remainingAmount <= totalResourceAmount
+//@     invariant totalResourceAmount >= 0.0 ==> remainingAmount >= 0.0
 //@     invariant forall k in queues :: grown(queues[k], resourceName)
 //@     invariant othersKept(queues)
 //@     invariant rrAllOK(remainingRequested, queues)
@@ -405,12 +422,14 @@ package resource_division
 //@     invariant remainingRequested != nil && fresh(remainingRequested)
 //@     invariant queuesOK(queues)
 //@     invariant remainingAmount <= totalResourceAmount
+//@     invariant totalResourceAmount >= 0.0 ==> remainingAmount >= 0.0
 //@     invariant forall k in queues :: grown(queues[k], resourceName)
 //@     invariant othersKept(queues)
 //@     invariant rrAllOK(remainingRequested, queues)
 //@     invariant oldTablesKept()
 //@     decreases len(priorities) - rangeindex
 //@   ensures [nothingTakenBack] remainingAmount <= totalResourceAmount
+//@   ensures [neverNegative] totalResourceAmount >= 0.0 ==> remainingAmount >= 0.0
 //@   ensures [sharesOnlyGrow] forall k in queues :: fair(queues[k], resourceName) >= old(fair(queues[k], resourceName))
 //@   ensures [otherResourcesKept] forall k in queues :: otherResKept(queues[k], resourceName)
 //@   ensures [otherQueuesKept] othersKept(queues)
@@ -427,6 +446,9 @@ package resource_division
 //@   requires validRes(resourceName) && queuesOK(queues) && keyedByUID(queues) && weightsNonNeg(queues, resourceName)
 //@   modifies family(queues[""].CPU.FairShare), family(queues[""].lastFairShare)
 //@   ensures [deservedFloor] forall k in queues :: fair(queues[k], resourceName) >= old(fair(queues[k], resourceName)) + deservedPart(queues[k], resourceName, totalAmount)
+//@   ensures [neverNegative] result >= 0.0
+//@   ensures [surplusBounded] result <= max(totalAmount - deservedSum(queues, queues, resourceName, totalAmount), 0.0)
+//@   ensures [nothingLeftWhenOverbooked] totalAmount - deservedSum(queues, queues, resourceName, totalAmount) <= 0.0 ==> result == 0.0
 //@   ensures [otherResourcesKept] forall k in queues :: otherResKept(queues[k], resourceName)
 //@   ensures [otherQueuesKept] othersKept(queues)
 //@   ensures [cache] queuesOK(queues)
